@@ -1460,8 +1460,11 @@ class SqlFactory(object):
             if not is_not_null:
                 column_def += " not null"
 
-            if default_value is not None and len(default_value) > 0:
-                column_def += " default " + str(default_value)
+            if default_value is not None and str(default_value) != "":
+                if isinstance(default_value, str):
+                    column_def += " default " + self._dialect.sql_string_escaped(default_value)
+                else:
+                    column_def += " default " + str(default_value)
 
             result += column_def
 
